@@ -162,6 +162,24 @@ func init() {
 			return Bool(strings.EqualFold(x.s, y.s)), callDone
 		}
 		if x.Len() != y.Len() {
+			// a string that is shorter than an all-ASCII concrete string can never fold to it
+			// (it would need at least as many runes, hence bytes)
+			short, long := x, y
+			if y.Len() < x.Len() {
+				short, long = y, x
+			}
+			_ = short
+			if long.Concrete() {
+				ascii := true
+				for i := 0; i < len(long.s); i++ {
+					if long.s[i] >= 0x80 {
+						ascii = false
+					}
+				}
+				if ascii {
+					return False, callDone
+				}
+			}
 			// non-ASCII folding can change lengths only for multi-byte runes; treat bytes >= 0x80 as unsupported
 			for _, t := range append(x.Terms(), y.Terms()...) {
 				if !t.IsConst() || t.V >= 0x80 {
@@ -795,4 +813,23 @@ func init() {
 	}
 	matchNative("FindStringSubmatch")
 	matchNative("FindString")
+}
+
+func init() {
+	// zero-copy string/[]byte views of the repo (reflect.StringHeader tricks): modelled as copies;
+	// the aliasing is not observable unless the bytes are written afterwards, which the callers do not do
+	intrinsics[ModulePath+"/redis-shake/common.String2Bytes"] = func(c *callCtx, a []Value) (Value, callStatus) {
+		s := strOf(a[0])
+		if s.Len() == 0 {
+			return Slice{}, callDone
+		}
+		return c.e.strToSlice(s, types.Typ[types.Uint8]), callDone
+	}
+	intrinsics[ModulePath+"/redis-shake/common.Bytes2String"] = func(c *callCtx, a []Value) (Value, callStatus) {
+		sl := a[0].(Slice)
+		if sl.obj == nil || sl.len == 0 {
+			return Str{}, callDone
+		}
+		return c.e.sliceToStr(sl), callDone
+	}
 }
